@@ -153,10 +153,11 @@ def step (s : St) (toks : List String) : St × List String :=
         | "rawtotal" => put sl [s!"rawtotal {rawTotal vf (arg 0)}"]
         | "timetotal" => put sl [s!"timetotal {nano (timeTotal vf (arg 0))}"]
         | "serial" =>
-            let i := arg 0
-            let v : Int := if i ≥ vf.links then (if vf.ready ≥ OPENED ∧ vf.seekable then vf.serialnos[vf.links - 1]! else (if !vf.seekable ∧ i ≥ 0 then vf.current_serialno else -1))
-              else if !vf.seekable ∧ i ≥ 0 then vf.current_serialno
-              else if i < 0 then vf.current_serialno else vf.serialnos[i.toNat]!
+            -- ov_serialnumber: i past the end means the last link; a streaming handle knows the current one only
+            let i0 := arg 0
+            let i1 : Int := if i0 ≥ vf.links then (vf.links : Int) - 1 else i0
+            let i2 : Int := if !vf.seekable ∧ i1 ≥ 0 then -1 else i1
+            let v : Int := if i2 < 0 then vf.current_serialno else vf.serialnos[i2.toNat]!
             put sl [s!"serial {v}"]
         | "streams" => put sl [s!"streams {vf.links}"]
         | "seekable" => put sl [s!"seekable {if vf.seekable then 1 else 0}"]
